@@ -23,6 +23,7 @@ PLAN = [("bounds", 48, 400, 60), ("gfdef", 30, 300, 120), ("g2def", 8, 80, 600),
 
 def scan_errs(out, wdir, driver, flavours, seed, tier, env):
     nrep = 0
+    reported = set()
     for fl in flavours:
         for path in sorted(glob.glob(os.path.join(wdir, "%s.%s.*.err" % (driver, fl)))):
             try:
@@ -38,6 +39,7 @@ def scan_errs(out, wdir, driver, flavours, seed, tier, env):
                 wit = dict(driver=driver, flavour=fl, case=rep["case"], monitor=rep["tool"], detail=rep["text"][:3500], replay_special="sanitizer", env=env)
                 if rep["owner"] == "library":
                     out.add_violation(key, wit)
+                    reported.add((fl, rep["case"]))
                 elif rep["owner"] == "harness":
                     out.infra.append("sanitizer report inside harness code (%s/%s case %s): %s" % (driver, fl, rep["case"], rep["text"][:800]))
                 else:
@@ -45,7 +47,7 @@ def scan_errs(out, wdir, driver, flavours, seed, tier, env):
                     out.extra.setdefault("external_reports", [])
                     if len(out.extra["external_reports"]) < 5:
                         out.extra["external_reports"].append(dict(driver=driver, flavour=fl, case=rep["case"], text=rep["text"][:600]))
-    return nrep
+    return reported
 
 
 def run(tier, seed):
@@ -60,7 +62,9 @@ def run(tier, seed):
         return 2
     wdir = runner.work_dir(pid + "-" + tier)
     executed = {}
-    for (driver, qs, ts, tmo) in PLAN:
+    only = os.environ.get("VERIF_C17_ONLY")   # debugging aid: restrict the plan to some drivers
+    plan = [p for p in PLAN if not only or p[0] in only.split(",")]
+    for (driver, qs, ts, tmo) in plan:
         sample = qs if tier == "quick" else ts
         merged = runner.run_driver({f: vhs[f] for f in A2}, driver, seed, tier, wdir, per_case_timeout=tmo, env_extra=SAN_ENV, sample=sample)
         n = 0
@@ -75,14 +79,23 @@ def run(tier, seed):
                     c["ratios"] = {}
                 out.add_case(c, driver, fl)
         executed[driver] = n
-        engine.record_incidents(out, merged, driver, {f: vhs[f] for f in A2}, seed, tier, env_extra=SAN_ENV)
-        scan_errs(out, wdir, driver, A2, seed, tier, SAN_ENV)
+        reported = scan_errs(out, wdir, driver, A2, seed, tier, SAN_ENV)
+        # a process that died right after printing a sanitizer report (e.g. ASan SEGV) is already accounted for by that report
+        for fl, res in merged.items():
+            keep = []
+            for inc in res.incidents:
+                if inc["kind"] == "crash" and (fl, inc["case"]) in reported:
+                    out.counters["crashes_with_report"] = out.counters.get("crashes_with_report", 0) + 1
+                    continue
+                keep.append(inc)
+            res.incidents = keep
+        engine.record_incidents(out, merged, driver, {f: vhs[f] for f in A2}, seed, tier, env_extra=SAN_ENV, key_driver="workload", extra_witness=dict(replay_special="sanitizer", env=SAN_ENV))
     # boundary probes also in the plain builds (the documented bounds checks are behavioural)
     merged = runner.run_driver({f: vhs[f] for f in ("P-real", "P-cplx")}, "bounds", seed, tier, wdir, per_case_timeout=60)
     for fl, res in merged.items():
         for case in res.cases:
             out.add_case(case, "bounds", fl)
-    engine.record_incidents(out, merged, "bounds", {f: vhs[f] for f in ("P-real", "P-cplx")}, seed, tier)
+    engine.record_incidents(out, merged, "bounds", {f: vhs[f] for f in ("P-real", "P-cplx")}, seed, tier, key_driver="workload")
     out.extra["cases_executed_under_sanitizers"] = executed
     if tier == "thorough":
         memcheck(out, vhs["P-real"], wdir, seed, tier)
